@@ -141,7 +141,7 @@ impl<K: KeyT, V: ValT> World<K, V> {
                             loop {
                                 {
                                     let _q = Quiet::new();
-                                    hints.push(json!([it.size_hint().0, it.size_hint().1]));
+                                    hints.push(json!([it.size_hint().0, it.size_hint().1.map_or(-1, |x| x as i64)]));
                                 }
                                 match it.next() {
                                     Some(k) => {
